@@ -40,7 +40,8 @@ def firstKw (s : Str) : List Str → Option Str
   | [] => none
   | k :: ks => if startsWith s k then some k else firstKw s ks
 
-def compoundKws : List Str := ["if".toList, "try".toList, "elif".toList, "while".toList, "for".toList, "with".toList]
+def compoundKws : List Str :=
+  ["if".toList, "try".toList, "elif".toList, "while".toList, "for".toList, "with".toList, "except".toList]
 def indentKws : List Str :=
   ["def".toList, "class".toList, "else".toList, "elif".toList, "except".toList, "finally".toList]
 def unindentKws : List Str := ["else".toList, "elif".toList, "except".toList, "finally".toList]
@@ -52,7 +53,7 @@ def reSpaceComment (s : Str) : Bool := (lskip s).head? == some '#'
     consume as well – the line is whitespace only -/
 def reSpace (s : Str) : Bool := s.all isSpace
 
-/-- `_re_compound = ^\s*(if|try|elif|while|for|with)` (`match`): the keyword is a *prefix* (there is no `\b`) -/
+/-- `_re_compound = ^\s*(if|try|elif|while|for|with|except)` (`match`; `except` since /repo 1cb10d7): the keyword is a *prefix* (there is no `\b`) -/
 def reCompound (s : Str) : Option Str := firstKw (lskip s) compoundKws
 
 /-- `_re_indent_keyword = ^\s*(def|class|else|elif|except|finally)` (`match`) -/
@@ -207,22 +208,17 @@ def HeaderOk (h : Str) : Bool :=
   hasText (some h) && !isComment (some h) && (opens h).isSome
 
 /-- `good prev P`: every simple line is `LineOk`, every header `HeaderOk`, and a continuation clause occurs only
-    directly after the suite of a header whose keyword is in `_re_compound` (`prev = some true`) – otherwise
-    `_is_unindentor` answers False (`prev`: `none` at the start of a suite or after a simple line,
-    `some c` after a compound statement whose last header was (`c = true`) / was not in `_re_compound`). -/
+    directly after the suite of a header whose keyword is in `_re_compound` = `if try elif while for with except`
+    (`prev = some true`).  The headers of the printer's tables that are *not* in `_re_compound` are `else`,
+    `finally`, `def`, `class` – in Python no clause can follow any of them (`else` and `finally` are final
+    clauses), so this is Python's own grammar, not a restriction on the programs.
+    (`prev`: `none` at the start of a suite or after a simple line, `some c` after a compound statement whose
+    last header was (`c = true`) / was not in `_re_compound`.) -/
 def good : Option Bool → Prog → Bool
   | _, .nil => true
   | _, .line raw s r => (raw || LineOk s) && good none r
   | prev, .comp h b r =>
     HeaderOk h && (!isCont h || prev == some true) && good none b && good (some (isCompound h)) r
-
-/-- as `good`, but a continuation clause may follow any header: the property-level notion of a well-formed
-    program (`try/except A/except B` is one) -/
-def wellFormed : Option Bool → Prog → Bool
-  | _, .nil => true
-  | _, .line raw s r => (raw || LineOk s) && wellFormed none r
-  | prev, .comp h b r =>
-    HeaderOk h && (!isCont h || prev.isSome) && wellFormed none b && wellFormed (some (isCompound h)) r
 
 /-- no empty suite (Python rejects one; the auto-`pass` rule of `visitControlLine` is there to avoid them) -/
 def suitesNonEmpty : Prog → Bool
